@@ -205,13 +205,17 @@ pub fn run_history(run: &Run<'_>, mut st: Option<&mut Stats>) -> Result<(), (Str
     let chunks = gen::split_at_cuts(run.input, run.cuts);
     let mut aborted = false;
     let mut seen_calls = 0usize;
+    let mut history_retries = 0u32;
     'chunks: for chunk in chunks {
         let mut want = vec![];
         let mut trial = refs.clone();
         trial.feed(chunk, &mut want);
         // cells handed over by attempts of this chunk that ended in Interrupted and were retried by the caller
         let mut carried: Vec<Cell> = vec![];
-        let mut retries = 0u32;
+        // (once a failed `write` has been retried in this history, F16 applies: the failed attempt left the parser
+        // state advanced, which can also surface in a later call, so `retries` is not reset between chunks)
+        let mut retries = history_retries;
+        let mut attempts = 0u32;
         loop {
         let r: Result<usize, io::Error> = match run.api {
             Api::Write => stream.write(chunk),
@@ -284,7 +288,7 @@ pub fn run_history(run: &Run<'_>, mut st: Option<&mut Stats>) -> Result<(), (Str
                     if !cells_eq(&all, &want_n, run.styles) {
                         return Err((
                             SIG_F16.into(),
-                            format!("write failed with Interrupted {retries} time(s) and was retried with the same buffer; over all attempts the console accepted {} but the buffer denotes {}: {}", show_cells(&all), show_cells(&want_n), first_cell_diff(&all, &want_n)),
+                            format!("earlier in this history a write failed with Interrupted and was retried with the same buffer ({retries} retries so far); over all attempts of this call the console accepted {} but the buffer denotes {}: {}", show_cells(&all), show_cells(&want_n), first_cell_diff(&all, &want_n)),
                         ));
                     }
                 } else if !cells_eq(&got, &want_n, run.styles) {
@@ -322,15 +326,17 @@ pub fn run_history(run: &Run<'_>, mut st: Option<&mut Stats>) -> Result<(), (Str
                     if all.len() > want.len() || !cells_eq(&all, &want[..all.len()], run.styles) {
                         return Err((
                             SIG_F16.into(),
-                            format!("write failed with Interrupted {retries} time(s) and was retried with the same buffer; over all attempts the console accepted {}, not a prefix of {}", show_cells(&all), show_cells(&want)),
+                            format!("earlier in this history a write failed with Interrupted and was retried with the same buffer ({retries} retries so far); over all attempts of this call the console accepted {}, not a prefix of {}", show_cells(&all), show_cells(&want)),
                         ));
                     }
                 } else if got.len() > want.len() || !cells_eq(&got, &want[..got.len()], run.styles) {
                     return Err((format!("c18:{tag}:delivery-not-prefix"), format!("failed call handed over {}, not a prefix of {}", show_cells(&got), show_cells(&want))));
                 }
-                if e.kind() == ErrorKind::Interrupted && matches!(run.api, Api::Write | Api::WriteVectored) && retries < 3 {
+                if e.kind() == ErrorKind::Interrupted && matches!(run.api, Api::Write | Api::WriteVectored) && attempts < 3 {
                     carried.extend_from_slice(&got);
+                    attempts += 1;
                     retries += 1;
+                    history_retries += 1;
                     if let Some(st) = st.as_deref_mut() {
                         st.count("writes_retried_after_interrupted");
                     }
